@@ -177,6 +177,7 @@ func check(args []string) int {
 	solver := fs.String("solver", "z3-new", "")
 	budget := fs.Int("budget", 0, "seconds (0 = tier default)")
 	validate := fs.Int("validate", -1, "number of passing paths to validate natively (-1 = tier default)")
+	cross := fs.String("cross", "", "second solver (z3 | z3-new | cvc5): every entry is explored again with it and must give the same path counts and verdicts")
 	evDir := fs.String("evidence-dir", "", "write evidence and replays here instead of <verif>/evidence, <verif>/replays (scratch runs against mutated trees)")
 	if len(args) < 1 {
 		fmt.Fprintln(os.Stderr, "usage: verif check <property> [--tier quick|thorough]")
@@ -235,6 +236,8 @@ func check(args []string) int {
 	}
 	var all []agg
 	inconclusive := []string{}
+	var crossRuns, crossDisagree int
+	var crossQueries int64
 	deadline := time.Now().Add(time.Duration(*budget) * time.Second)
 	for _, e := range entries {
 		res, err := P.Explore(gosym.Config{
@@ -248,6 +251,18 @@ func check(args []string) int {
 			return 2
 		}
 		all = append(all, agg{e, res})
+		if *cross != "" && res.Exhaustive && len(res.Violations) == 0 {
+			res2, err2 := P.Explore(gosym.Config{Entry: e, Workers: *workers, Solver: *cross, Seed: seed, Deadline: deadline})
+			crossRuns++
+			if err2 != nil || !res2.Exhaustive {
+				inconclusive = append(inconclusive, fmt.Sprintf("%s: cross-check run with %s did not finish", e, *cross))
+			} else if res2.Paths != res.Paths || res2.Done != res.Done || res2.Pruned != res.Pruned || len(res2.Violations) != 0 || len(res2.Fuel) != len(res.Fuel) {
+				crossDisagree++
+				inconclusive = append(inconclusive, fmt.Sprintf("%s: solvers disagree: %s paths=%d done=%d pruned=%d, %s paths=%d done=%d pruned=%d violations=%d",
+					e, *solver, res.Paths, res.Done, res.Pruned, *cross, res2.Paths, res2.Done, res2.Pruned, len(res2.Violations)))
+			}
+			crossQueries += res2.Queries
+		}
 		if !res.Exhaustive {
 			inconclusive = append(inconclusive, fmt.Sprintf("%s: exploration not exhaustive within budget (paths=%d)", e, res.Paths))
 		}
@@ -403,7 +418,12 @@ func check(args []string) int {
 					inconclusive = append(inconclusive, fmt.Sprintf("translator validation mismatch (%s): native status=%s %s failed=%v unused=%d\n   native obs=%v\n   symbolic obs=%v", keep, nr.Status, nr.Detail, nr.Failed, nr.Unused, nr.Observes, pr.Observes))
 				}
 				if len(samples) < 3 && okk {
-					samples = append(samples, map[string]interface{}{"entry": prop, "observations": nr.Observes, "nondet_values": len(pr.Nondets), "decisions": len(pr.Decisions)})
+					rf := buildReplay(prop, "", pr, "", "pass")
+					var inputs []string
+					for _, nd := range rf.Nondet {
+						inputs = append(inputs, fmt.Sprintf("%s=%d", nd.Name, nd.Value))
+					}
+					samples = append(samples, map[string]interface{}{"inputs_from_solver_model": inputs, "observations_symbolic_equal_native": nr.Observes, "decisions": len(pr.Decisions)})
 				}
 			}
 		}
@@ -501,6 +521,10 @@ func check(args []string) int {
 				"assertions_discharged_by_rewriting": arew,
 			},
 			"solver":               *solver,
+			"cross_check": map[string]interface{}{
+				"second_solver": *cross, "entries_re_explored": crossRuns, "disagreements": crossDisagree, "second_solver_queries": crossQueries,
+				"rule": "an entry is explored again from scratch with the second solver; every feasibility verdict shapes the path tree, so equal counts of feasible / completed / pruned paths and no violation mean the two solvers agreed on every query that mattered",
+			},
 			"solver_wall_s":        solverWall.Seconds(),
 			"max_query_ms":         float64(maxQ.Microseconds()) / 1000,
 			"load_s":               loadDur.Seconds(),
